@@ -138,4 +138,21 @@ bool vp_combinators(int x, int* p, vp_S sv, char const* str)
   return r;
 }
 
+
+// range matchers over a C array (C11, partial): elements are abstract operand matchers / plain values
+bool vp_ranges(int (&arr)[3], int (&arr0)[1])
+{
+  using namespace trompeloeil;
+  bool r = true;
+  r = param_matches(range_is(vp_abs<1>{}, vp_abs<2>{}, vp_abs<3>{}), std::ref(arr)) && r;
+  r = param_matches(range_is(vp_abs<1>{}, vp_abs<2>{}), std::ref(arr)) && r;
+  r = param_matches(range_starts_with(vp_abs<1>{}, vp_abs<2>{}), std::ref(arr)) && r;
+  r = param_matches(range_ends_with(vp_abs<1>{}, vp_abs<2>{}), std::ref(arr)) && r;
+  r = param_matches(range_all_of(vp_abs<1>{}), std::ref(arr)) && r;
+  r = param_matches(range_any_of(vp_abs<1>{}), std::ref(arr)) && r;
+  r = param_matches(range_none_of(vp_abs<1>{}), std::ref(arr)) && r;
+  r = param_matches(range_is(1, 2, 3), std::ref(arr)) && r;
+  return r;
+}
+
 } // namespace vp_trompeloeil
